@@ -349,10 +349,12 @@ class FitDataset(AbstractFit):
         reliably interpreted in high signal-to-noise regions of a dataset.
         """
         if self.use_mask_in_fit:
-            return fit_util.chi_squared_map_with_mask_from(
-                residual_map=self.residual_map, noise_map=self.noise_map, mask=self.mask
+            return fit_util.residual_flux_fraction_map_with_mask_from(
+                residual_map=self.residual_map, data=self.data, mask=self.mask
             )
-        return super().chi_squared_map
+        return fit_util.residual_flux_fraction_map_from(
+            residual_map=self.residual_map, data=self.data
+        )
 
     @property
     def inversion(self) -> Optional[AbstractInversion]:
